@@ -8,6 +8,7 @@ RqModel/Lemmas/Rewrite.lean.
 -/
 import RqModel.Lemmas.Rewrite
 import RqModel.Lemmas.RewriteAllowed
+import RqModel.Lemmas.RewriteMeaning
 namespace C14
 open RqModel.Rewrite
 
@@ -231,6 +232,38 @@ and the order and number of children are untouched; nothing inside ORDER BY term
 random() calls. For every statement tree, flag setting, clock value and random source. -/
 theorem only_allowed_changes (c : Cfg) (n : Node) : allowed c false n (rewrite c n).1 = true :=
   walk_allowed c n {} false (by decide)
+
+/-! ### meaning, denotationally (date/time family) -/
+
+/-- For ANY compositional semantics of statements (`Sem`: SQLite as a parameter) in which the pinned
+literal denotes the instant `now` denoted at the pinned time `t0` - the one assumed law - the
+statement rewritten for time evaluates, at EVERY later time `t`, to exactly what the original
+evaluated to at `t0`; in particular its value no longer depends on the time of evaluation. `eval`
+reads the clock where SQLite does: a `now` argument in a time-value position of date / time /
+datetime / julianday / unixepoch / strftime / timediff, and an omitted time value. (Random
+rewriting off: a random() call has no value to preserve.) -/
+theorem meaning_preserved {V : Type} (s : Sem V) (c : Cfg) (t0 : Nat)
+    (ht : c.rwTime = true) (hr : c.rwRand = false)
+    (hlaw : s.lit "jd" c.nowTok = s.now t0) (n : Node) :
+    (∀ t, eval s t (rewrite c n).1 = eval s t0 n) ∧
+    (∀ t t', eval s t (rewrite c n).1 = eval s t' (rewrite c n).1) := by
+  have h := fun t => eval_walk s c t0 ht hr hlaw n {} t
+  exact ⟨h, fun t t' => by rw [rewrite, h t, h t']⟩
+
+/-- non-vacuity: a semantics over numbers in which the law holds, a statement whose value depends on
+the clock, and its rewritten form whose value does not -/
+def demoSem : Sem Nat :=
+  { lit := fun k _ => if k == "jd" then 7 else 0, ident := fun _ => 0,
+    app := fun _ a e => a.sum + e.sum, ord := List.sum, ret := List.sum, node := fun _ k => k.sum,
+    now := fun t => t + 2 }
+
+example :
+    let c : Cfg := ⟨false, true, fun _ => 0, "5"⟩
+    let stmt : Node := .other "SelectStatement" (.cons (.call "DateTime" .nil .nil)
+      (.cons (.call "strftime" (.cons (.lit "string" "%s") (.cons (.lit "string" "NOW") .nil)) .nil) .nil))
+    demoSem.lit "jd" c.nowTok = demoSem.now 5 ∧
+    eval demoSem 5 stmt = 14 ∧ eval demoSem 100 stmt = 204 ∧
+    eval demoSem 100 (rewrite c stmt).1 = 14 := by decide
 
 /-! ### statements without such calls are replicated unchanged -/
 
